@@ -193,11 +193,8 @@ HistSmall == { Cl(<<3, 5>>, "gen", "finite", "first", "f64", 0),
                Cl(<<3, 5>>, "gen", "nan", "last", "f64", 0) }
 HistFull  == HistSmall \cup
              { Cl(<<4, 3>>, "gen", "finite", "first", "f32", 0),
-               Cl(<<4, 3>>, "gen", "finite", "first", "f64", -13),
                Cl(<<5, 5>>, "dup", "finite", "first", "f32", 10),
-               Cl(<<1, 3>>, "gen", "finite", "first", "f64", 0),
-               Cl(<<3, 2>>, "gen", "finite", "first", "f64", 0),
-               Cl(<<5, 5>>, "gen", "pinf", "first", "f32", 0) }
+               Cl(<<3, 2>>, "gen", "finite", "first", "f64", 0) }
 HistAlphabet == IF HistLevel = 1 THEN HistSmall ELSE HistFull
 
 \* a kind with a tensor parameter is only used with inputs of the parameter's dtype
